@@ -6,6 +6,7 @@ import ast
 from ..core import AnalysisError, call_name, dotted, kwarg, norm, walk_no_nested
 from ..guards import A, And, Not, Or, implies, path_formula, show_formula, sites
 from ..registry import describe, rule
+from .. import tmatch as tm
 from ..util import calls_named, peel, returns_of
 
 BN = "pgmpy/models/BayesianNetwork.py"
@@ -184,22 +185,29 @@ def tree(rc):
         rc.fail(j, j.node, "the clique tree must come from a spanning tree of the clique graph", construct="spanning tree")
     else:
         c = st[0]
-        neg = False
-        sepw = False
-        for n in walk_no_nested(j.node):
-            if isinstance(n, ast.Call) and call_name(n) == "add_edge" and kwarg(n, "weight") is not None:
-                w = kwarg(n, "weight")
-                neg = isinstance(w, ast.UnaryOp) and isinstance(w.op, ast.USub)
-        d = {n.targets[0].id: n.value for n in walk_no_nested(j.node) if isinstance(n, ast.Assign) and isinstance(n.targets[0], ast.Name)}
-        wdef = norm(d.get("weights", ast.Constant(value=None)), 300)
-        sepw = "len(set(x[0]).intersection(set(x[1])))" in wdef or "len(set(x[0]) & set(x[1]))" in wdef
+        G = dotted(c.args[0]) if c.args else None
+        neg = None
+        sepw = pairs = False
+        for lp in [n for n in walk_no_nested(j.node) if isinstance(n, ast.For)]:
+            for sign, t in ((-1, "for _e, _w in zip(_E, _W):\n    _G.add_edge(*_e, weight=-_w)"), (1, "for _e, _w in zip(_E, _W):\n    _G.add_edge(*_e, weight=_w)")):
+                bl = tm.is_(lp, t, {"_G": G} if G else {})
+                if bl is None:
+                    continue
+                neg = sign == -1
+                for wt in ("_W = list(map(lambda _x: len(set(_x[0]).intersection(set(_x[1]))), _E))", "_W = list(map(lambda _x: len(set(_x[0]) & set(_x[1])), _E))",
+                           "_W = [len(set(_x[0]).intersection(set(_x[1]))) for _x in _E]", "_W = [len(set(_x[0]) & set(_x[1])) for _x in _E]"):
+                    sepw = sepw or tm.has(j.node, wt, {"_W": bl["_W"], "_E": bl["_E"]}, nested=False)
+                nE, bE = tm.find(j.node, "_E = list(itertools.combinations(_C, 2))", {"_E": bl["_E"]})
+                pairs = bE is not None and tm.has(j.node, "_C = list(map(tuple, nx.find_cliques(_T)))", {"_C": bE["_C"]})
         parity = (1 if call_name(c) == "maximum_spanning_tree" else -1) * (-1 if neg else 1)
-        rc.ob(f"clique graph weights {wdef[:80]} (negated: {neg}); {call_name(c)} -> parity {parity:+d}")
-        if not sepw:
+        rc.ob(f"clique graph: sepset-size weights {sepw} (negated: {neg}); {call_name(c)} -> parity {parity:+d}; all clique pairs {pairs}")
+        if neg is None:
+            rc.fail(j, j.node, "the clique graph must get one weighted edge per clique pair", construct="clique graph edges")
+        elif not sepw:
             rc.fail(j, j.node, "clique-graph edge weights must be the sepset sizes", construct="sepset weights")
-        if parity != 1:
+        if neg is not None and parity != 1:
             rc.fail(j, c, "the clique tree must MAXIMISE total sepset size (running-intersection property)", construct="spanning tree parity")
-        if "itertools.combinations(cliques, 2)" not in norm(j.node, 100000):
+        if neg is not None and not pairs:
             rc.fail(j, j.node, "all pairs of maximal cliques are candidate tree edges", construct="clique pairs")
     if not any(call_name(c) == "find_cliques" for c in repo.calls_in(j)) or not any(call_name(c) == "triangulate" for c in repo.calls_in(j)):
         rc.fail(j, j.node, "cliques must be the maximal cliques of the triangulated graph", construct="cliques of triangulation")
@@ -216,8 +224,11 @@ def tree(rc):
         rc.fail(jc, jc.node, "a junction tree must be connected", construct="connected check")
     # BN -> MN: moral graph with all nodes
     f = repo.func(BN, "BayesianNetwork.to_markov_model")
-    t = norm(f.node, 5000)
-    okm = "self.moralize()" in t and "MarkovNetwork(moral_graph.edges())" in t and "add_nodes_from(moral_graph.nodes())" in t
+    _, bm = tm.find(f.node, "_MG = self.moralize()")
+    okm = bm is not None and tm.find(f.node, "_MM = MarkovNetwork(_MG.edges())", bm)[1] is not None
+    if okm:
+        bm = tm.find(f.node, "_MM = MarkovNetwork(_MG.edges())", bm)[1]
+        okm = tm.has(f.node, "_MM.add_nodes_from(_MG.nodes())", bm) and any(dotted(r.value) == bm["_MM"] for r in [n for n in walk_no_nested(f.node) if isinstance(n, ast.Return)])
     rc.ob(f"BN.to_markov_model builds the moral graph with all nodes: {okm}")
     if not okm:
         rc.fail(f, f.node, "BN -> MN must use the moral graph (all its edges and all its nodes)", construct="moral graph")
